@@ -159,7 +159,7 @@ def apply_control_n_gate(q0:np.ndarray, op:np.ndarray, ind_control_set:int|set[i
     assert len(ind_target)==len(set(ind_target))
     assert all((x not in ind_control_set) for x in ind_target)
     shape0, index_tuple0, ind_target_new = _control_n_index(num_qubit, ind_control_set, ind_target)
-    ret = q0.copy()
+    ret = q0.astype(np.result_type(q0.dtype, op.dtype)) #a copy; a real state must not discard the imaginary part
     tmp0 = q0.reshape(shape0)[index_tuple0]
     ret.reshape(shape0)[index_tuple0] = apply_gate(tmp0.reshape(-1), op, ind_target_new).reshape(tmp0.shape)
     return ret
